@@ -9,6 +9,7 @@ for f in "$HERE"/variants/break/*.patch "$HERE"/variants/keep/*.patch "$HERE"/va
   if [ -n "$PROPS" ] && [ "$p" != "ALL" ]; then case " $PROPS " in *" $p "*) ;; *) continue;; esac; fi
   exp="$(grep '^# expect:' "$f" | sed 's/# expect: *//' | tr '\n' ' ')"
   props="$p"
+  case "$f" in */keep-ext/*) p=ALL;; esac
   [ "$p" = "ALL" ] && props="C01 C02 C03 C04 C05 C06 C07 C08 C09 C10 C11 C12 C13 C14 C15 C16 C17 C18 C19 C20"
   # expectations may name other properties too
   for e in $exp; do q="${e%%.*}"; case " $props " in *" $q "*) ;; *) props="$props $q";; esac; done
